@@ -194,7 +194,7 @@ func (k Keeper) CalculationOfRewards(
 	factor1 := a.Add(b)
 	intPerBlockFactor := math.Pow(factor1.MustFloat64(), yearsElapsed.MustFloat64())
 	intAccPerBlock := intPerBlockFactor - types.Float64One
-	amtFloat := sdk.NewDec(amount.Int64()).MustFloat64()
+	amtFloat := sdk.NewDecFromInt(amount).MustFloat64()
 	newAmount := intAccPerBlock * amtFloat
 
 	// s := fmt.Sprint(newAmount)
